@@ -257,6 +257,71 @@ def unwrap_target_cases():
     return out
 
 
+# ---- the position in the report of `get` on nil is a position in the TEXT (line, column counted in characters), whatever
+# characters precede it on the line or in the file; fixed cases
+GET_PREFIXES = [("ascii", "print \"total: \" + "), ("accents", "print \"\u00e9t\u00e9 \u2014 total: \" + "), ("cjk", "print \"\u65e5\u672c\u8a9e: \" + "),
+                ("emoji", "print \"\U0001f600\U0001f680 \" + "), ("combining", "print \"e\u0301a\u0300 \" + "), ("non-ascii-name-free", "print 1 + ")]
+
+
+def get_position_cases():
+    """-> [(id, source, (line, column) of the operand of the failing get)]"""
+    out = []
+    for pid, prefix in GET_PREFIXES:
+        num = pid == "non-ascii-name-free"
+        decl = "prix: %s? = nil\nsuffixe = \"!\"\n" % ("int" if num else "str")
+        for where in ("module", "function", "after-non-ascii-lines"):
+            line = prefix + "(get prix)" + ("" if num else " + suffixe")
+            col = len(prefix) + len("(get ") + 1
+            if where == "module":
+                src, ln = decl + line + "\n", 3
+            elif where == "function":
+                src, ln, col = decl + "f = fn() {\n\t" + line + "\n}\nf()\n", 4, col + 1
+            else:
+                src, ln = "# \u00e9\u00e8 \u65e5\u672c \U0001f600\nnote = \"\u00fc\u00f6\u00e4 \u2014\"\n" + decl + line + "\n", 5
+            out.append(("%s/%s" % (pid, where), src, (ln, col)))
+    return out
+
+
+# ---- a fallback is evaluated only when the primary is nil -- all of it, including what FOLLOWS a nested `or` inside it
+OR_NESTED_CASES = [
+    ("call-with-nested-or-then-failing-constant", "scale = fn(a: int, b: int) -> int {\n  return a * b\n}\nwidth: int? = 3\nzoom: int? = nil\nprint (width) or scale((zoom) or 1, 1 / 0)\nprint \"end\"\n", ["3", "end"], 0),
+    ("sum-with-nested-or-then-failing-constant", "width: int? = 3\nzoom: int? = 2\nprint (width) or ((zoom) or 1) + 1 / 0\nprint \"end\"\n", ["3", "end"], 0),
+    ("nested-or-twice-then-failing-constant", "w: int? = 3\nz: int? = nil\nprint (w) or ((z) or ((z) or 1)) + (1 % 0)\nprint \"end\"\n", ["3", "end"], 0),
+    ("nil-primary-reaches-the-failing-constant", "scale = fn(a: int, b: int) -> int {\n  return a * b\n}\nwidth: int? = nil\nzoom: int? = nil\nprint \"start\"\nprint (width) or scale((zoom) or 1, 1 / 0)\nprint \"never\"\n", ["start"], 1),
+    ("nested-or-in-list-then-failing-constant", "w: [int...]? = [3]\nz: int? = nil\nr = (w) or [(z) or 1, 1 / 0]\nprint r\nprint \"end\"\n", ["[3]", "end"], 0),
+]
+
+
+def run_fixed_positions_and_fallbacks(ctx, binary, base):
+    gcs = get_position_cases()
+
+    def one(src):
+        d = programs.materialize({"files": {"main.ms": src}}, base)
+        r = programs.run_bin(binary, ["run", "main.ms", "-q"], d)
+        import shutil
+        shutil.rmtree(d, ignore_errors=True)
+        return r
+    n = 0
+    for (cid, src, (ln, col)), (rc, out, err) in zip(gcs, programs.pmap(one, [c[1] for c in gcs])):
+        n += 1
+        m = re.search(r"main\.ms:(\d+):(\d+): unwrap of `nil`", err)
+        if rc != 1 or not m or (int(m.group(1)), int(m.group(2))) != (ln, col):
+            ctx.report("get-nil-position", "`get` of nil (%s): the report must name main.ms:%d:%d (line and column, in characters, of the operand); exit %d, it names %r"
+                       % (cid, ln, col, rc, m.group(0) if m else (out + err)[-200:]),
+                       {"case": cid, "program": src, "expected_position": "main.ms:%d:%d" % (ln, col), "rc": rc, "stdout": out[-300:], "stderr": err[-600:], "how": "mscript run main.ms -q"})
+    for (cid, src, exp, erc), (rc, out, err) in zip(OR_NESTED_CASES, programs.pmap(one, [c[1] for c in OR_NESTED_CASES])):
+        n += 1
+        got = out.split("\n")[:-1]
+        if "Did not compile successfully" in err or got != exp or (rc != 0) != (erc != 0):
+            why = [l.strip() for l in (out + err).splitlines() if l.strip().startswith("=")]
+            ctx.report("or-fallback-with-nested-or", "`a or b` with an `or` nested inside b (%s): %s, expected %r and %s"
+                       % (cid, ("rejected at compile time %s" % why[:1]) if "Did not compile" in err else "printed %r (exit %d)" % (got, rc), exp, "normal termination" if erc == 0 else "a run-time failure"),
+                       {"case": cid, "program": src, "expected": exp, "observed": got, "rc": rc, "stderr": (out + err)[-500:], "how": "mscript run main.ms -q"})
+    ctx.cov["get_position_cases"] = len(gcs)
+    ctx.cov["or_nested_fallback_cases"] = len(OR_NESTED_CASES)
+    return n
+
+
 def run(ctx):
     ok = core.coq_props(ctx, "Props/C12.v")
     binary = core.build_repo()
@@ -331,10 +396,11 @@ def run(ctx):
                    % (cid, rc, ([l.strip() for l in err.splitlines() if re.match(r"\s+\d+: ", l)] or [err.strip()[-160:]])[-1][:160] if rc else "ran to completion: %r" % out.split("\n")[-4:]),
                    {"case": cid, "program": src, "expected": "rejected at compile time (the target cannot hold the value of e)", "rc": rc, "stdout": out[-300:], "stderr": err[-500:],
                     "how": "mscript run main.ms -q"})
+    n_fx = run_fixed_positions_and_fallbacks(ctx, binary, base)
     ctx.cov["present_optional_equality_cases"] = {"programs": n_eq, "types": [t[0] for t in EQ_TYPES], "positions": EQ_POSITIONS}
     ctx.cov["unwrap_into_non_optional_target_cases"] = n_ut
     nils = sum(1 for r in results if r["status"] == "ran" and r["t3"][0] == "ok" and "unwrap of" in r["real"]["stderr"])
-    ctx.cov["evaluations"] = st["programs"] + n_u + n_c + n_eq + n_ut
+    ctx.cov["evaluations"] = st["programs"] + n_u + n_c + n_eq + n_ut + n_fx
     ctx.cov["distinct_nontrivial"] = len(set(r["proj"]["files"]["main.ms"] for r in results if r["status"] == "ran"))
     ctx.cov["rule"] = ("optional programs: int?/str? variables, parameters and results, each use of == nil / == value / or (literal, variable, "
                        "side-effecting and nested fallback) / get in statement, if and while position with random nil/present; `?=` in if / statement / "
@@ -348,5 +414,5 @@ def run(ctx):
     ctx.sample({"program": projs[0]["files"]["main.ms"][:900]})
     ctx.cov["trusted_base"] = ["Coq 8.16.1 kernel; no axioms", "extraction + drivers", "hooks H1/H3", "Python oracle for ?="]
     ctx.assumptions = ["Lang/Eval.v is the specification for ==nil / or / get", "optionals of list and class type are outside the Coq models"]
-    spec_failed = any(v[0].startswith(("semantics:", "unwrap-into", "present-optional-eq-plain", "optional-in-container")) for v in ctx.viol)
+    spec_failed = any(v[0].startswith(("semantics:", "unwrap-into", "present-optional-eq-plain", "optional-in-container", "get-nil-position", "or-fallback-with-nested-or")) for v in ctx.viol)
     core.proof_or_search(ctx, ok, ["C12 obligations"], spec_failed)
